@@ -415,7 +415,7 @@ class Tree:
         """
         if name is None:
             name = f"Copy of {self}"
-        new_tree = Tree(name)
+        new_tree = self.__class__(name)
         with self:
             new_tree._root._add_from(self._root, predicate=predicate)
         return new_tree
